@@ -140,6 +140,14 @@ def emit_rs(path):
         lines.append('%s    v.push(%s::<%s>(%d, %s));' % (guard, fn, r, i, '"' + r.replace('"', '') + '"'))
     for (i, t, ctor) in canon_entries():
         lines.append('    v.push(%s(%d, "%s"));' % (ctor, i, rust(t)))
+    lines += ['    v', '}',
+              '// second registration list: types with a BorshSchema impl (tyuniv.has_schema); same ids',
+              'pub fn schema_catalogue() -> Vec<(u32, RunFn)> {',
+              '    let mut v: Vec<(u32, RunFn)> = Vec::new();']
+    for (i, t) in cat:
+        if has_schema(t) and can_de(t):
+            guard = '    #[cfg(feature = "cfg_std")]\n' if needs_std(t) else ''
+            lines.append('%s    v.push(sch::<%s>(%d));' % (guard, rust(t), i))
     lines += ['    v', '}', '']
     src = '\n'.join(lines)
     old = open(path).read() if os.path.exists(path) else None
